@@ -82,6 +82,16 @@ def _gen_case(rng, tier):
     if case['via'] == 'wsgi' and rng.random() < 0.1:
         # a Content-Length header next to Transfer-Encoding: chunked: the transfer coding decides (RFC 7230 3.3.3)
         case['cl_too'] = rng.choice([0, 1, 5, 17, 100000])
+    if case['via'] == 'wsgi' and rng.random() < 0.15:
+        # the decoder's contract does not depend on what the payload is said to be: a multipart media type makes the
+        # reader feed every piece to the multipart scanner as well (payloads that are no multipart at all included)
+        case['ctype'] = rng.choice(['multipart/form-data; boundary=b0', 'multipart/form-data; boundary=b0',
+                                    'application/x-www-form-urlencoded', 'application/json'])
+    if case['via'] == 'wsgi' and rng.random() < 0.15:
+        # a configured body limit the payload stays within (possibly far below the buffer size, and below the length
+        # of a legal size line): the limit bounds the payload, not the framing
+        plen = sum(len(ch['data']) // 2 for ch in case['chunks'])
+        case['M'] = plen + rng.choice([0, 0, 1, 2, 7, 40])
     return case
 
 
@@ -169,8 +179,8 @@ def _run_case(case):
             except Exception as e:   # noqa
                 outcome, detail = 'server-error', f'{type(e).__name__}: {e}'
     else:
-        o = body_request(wire, case['sched'], B=B, chunked=True, cl=case.get('cl_too'), tempmode=case['temp'],
-                         touch=('body',), retry=(3 if case.get('retry') else 0), errors_map=case.get('errors_map'))
+        o = body_request(wire, case['sched'], B=B, M=case.get('M'), chunked=True, cl=case.get('cl_too'), ctype=case.get('ctype'),
+                         tempmode=case['temp'], touch=('body',), retry=(3 if case.get('retry') else 0), errors_map=case.get('errors_map'))
         stream = o.stream
         log('status', o.resp.status)
         if 'retry_body' in o.seen:
@@ -253,6 +263,12 @@ def _run_case(case):
         res['probes']['with_trailers'] += 1
     if long_line:
         res['probes']['size_line_longer_than_B'] += 1
+    if case.get('ctype'):
+        res['probes']['ctype:' + case['ctype'].split(';')[0]] += 1
+    if case.get('M') is not None:
+        res['probes']['body_limit_configured'] += 1
+        if max_line > case['M'] + 1 and not long_line:
+            res['probes']['size_line_longer_than_body_limit'] += 1
     res['probes']['outcome:' + str(outcome)] += 1
     res['probes']['expect:' + expect] += 1
     res['probes']['via:' + case['via']] += 1
@@ -320,6 +336,11 @@ def _shrink_candidates(case):
             yield shrink.with_key(case, 'fault', dict(fault, rel=[fault['rel'][0], fault['rel'][1], v]))
     if case['temp'] != 'mem':
         yield shrink.with_key(case, 'temp', 'mem')
+    for k in ('ctype', 'M', 'cl_too'):
+        if case.get(k) is not None:
+            c = dict(case)
+            del c[k]
+            yield c
     if case['via'] != 'direct':
         yield shrink.with_key(case, 'via', 'direct')
 
